@@ -24,7 +24,9 @@
    Labels come back as the dict whose insertion order is the exposition's order: sorted by name (sort_kv). *)
 From V Require Import lib.PyBase lib.PyStr model.Utils model.Validation model.Expo model.TextParser model.OMParser
   proofs.LabelRoundTrip proofs.SampleRoundTrip proofs.OMWitness proofs.OMLabelRoundTrip proofs.OMSampleRoundTrip
-  proofs.DocRoundTrip proofs.OMDocRoundTrip proofs.OMCounterRoundTrip proofs.OMRoundTripWitness.
+  proofs.DocRoundTrip proofs.OMDocRoundTrip proofs.OMCounterRoundTrip proofs.OMRoundTripWitness
+  proofs.OMFamilyRoundTrip proofs.OMGroupingFacts proofs.OMSummaryRoundTrip proofs.OMGaugeCounterInst proofs.OMInfoStateRoundTrip proofs.OMNhNone proofs.OMHistogramRoundTrip
+  proofs.OMDocumentRoundTrip proofs.OMRoundTripWitness2.
 From Coq Require Import Permutation.
 Open Scope N_scope.
 
@@ -321,3 +323,375 @@ Example C04_L5_counter_nonvacuous : forall fix_isnan fix_tsexp fix_sname,
    /\ om_render true [hostile_counter] = Ok hostile_counter_text)
   /\ toy_text fix_tsexp fix_sname hostile_counter_text = Ok [cfam_of str hostile_val hostile_cex hostile_counter].
 Proof. exact (fun a b c => conj (hostile_counter_hyps a b) (hostile_counter_reads b c)). Qed.
+
+(* ================= L5, general: one family of ANY type, documents of several families =================
+   proofs/OMFamilyRoundTrip.v.  g_ps_of s is the parsed form of a sample (name, sorted labels, val_of s, ts_of s, ex_of s).
+   family_acc f (abstract well-formedness of a family of type f_type f): the name is not empty, the type word is one of
+   the eight metric types, the unit (if any) ends the name and the type is not info / stateset, every sample meets
+   sample_acc - the hypotheses of L4 (read_ok), the exposition writes its exemplar (ex_writable), its name is one the
+   type allows (allowed_names), the per-sample checks of the line loop pass on its parsed form (om_pre_checks /
+   om_post_checks = Ok tt), for a histogram the line is not taken for a native-histogram line -, the group bookkeeping
+   accepts the sequence and drops nothing (grun = Some _: a fold of om_group_step on the four fields it reads), and for
+   the two histogram types _check_histogram passes at the flush.  The per-type theorems below derive family_acc from
+   hypotheses on the values alone.
+   C04_L5_family_step: from a state that is not at EOF, whose family in progress (if any) is closed by om_flush with
+   result (out, seen), not named like f, and with none of f's reserved names in seen, the lines of f lead to a state of
+   the same kind whose om_flush yields exactly [gfam_of f]. *)
+Theorem C04_L5_family_step :
+  forall (fix_nhkeys fix_nhsfx fix_tsmix fix_isnan fix_tsexp fix_sname : bool) (NUM : Type)
+         (parse_num parse_float : str -> option NUM) (parse_int : str -> option Z) (num_lt num_eqb : NUM -> NUM -> bool)
+         (num_isinf num_integral num_huge : NUM -> bool) (num_zero num_one num_inf : NUM)
+         (ts_float : Z -> Z -> option NUM) (is_word is_space_re is_digit_re : char -> bool)
+         (val_of : sample -> NUM) (ts_of : sample -> option (om_tsv NUM)) (ex_of : sample -> option (om_exemplar NUM))
+         (st : om_st NUM) (f : family) (more : list str) (acc out : list (om_family NUM)) (seen : list str),
+    family_acc fix_nhkeys fix_nhsfx fix_tsmix fix_isnan fix_tsexp NUM parse_num parse_float parse_int num_lt num_eqb
+      num_isinf num_integral num_huge num_zero num_one num_inf ts_float is_word is_space_re is_digit_re val_of ts_of ex_of f ->
+    st_eof st = false -> om_flush false NUM parse_float num_lt num_eqb num_zero num_inf st = Ok (out, seen) ->
+    om_opt_str_eqb (st_name st) (f_name f) = false ->
+    existsb (fun x => mem_str x seen) (fnames (f_name f) (f_type f)) = false ->
+    exists st',
+      om_run_lines false true fix_nhkeys fix_nhsfx fix_tsmix fix_isnan true true fix_tsexp fix_sname NUM parse_num parse_float
+        parse_int num_lt num_eqb num_isinf num_integral num_huge num_zero num_one num_inf ts_float is_word is_space_re
+        is_digit_re st (om_family_lines_of f ++ more) acc
+      = om_run_lines false true fix_nhkeys fix_nhsfx fix_tsmix fix_isnan true true fix_tsexp fix_sname NUM parse_num parse_float
+          parse_int num_lt num_eqb num_isinf num_integral num_huge num_zero num_one num_inf ts_float is_word is_space_re
+          is_digit_re st' more (acc ++ out) /\
+      st_eof st' = false /\ st_name st' = Some (f_name f) /\
+      om_flush false NUM parse_float num_lt num_eqb num_zero num_inf st'
+      = Ok ([gfam_of NUM val_of ts_of ex_of f], seen ++ fnames (f_name f) (f_type f)).
+Proof. exact family_step. Qed.
+Print Assumptions C04_L5_family_step.
+
+(* the names build_metric reserves, type by type (names_apart f g: no name reserved by f is reserved by g) *)
+Theorem C04_L5_reserved_names : forall n,
+  fnames n OM_gauge = [n ++ []] /\
+  fnames n OM_counter = [n ++ OM_total; n ++ OM_created; n ++ []] /\
+  fnames n OM_summary = [n ++ OM_count; n ++ OM_sum; n ++ OM_created; n ++ []] /\
+  fnames n OM_histogram = [n ++ OM_count; n ++ OM_sum; n ++ OM_bucket; n ++ OM_created; n ++ []] /\
+  fnames n OM_gaugehistogram = [n ++ OM_gcount; n ++ OM_gsum; n ++ OM_bucket; n ++ []] /\
+  fnames n OM_info = [n ++ OM_infosfx; n ++ []] /\
+  fnames n OM_stateset = [n ++ []] /\
+  fnames n OM_unknown = [n ++ []].
+Proof. exact fnames_table. Qed.
+Print Assumptions C04_L5_reserved_names.
+
+(* documents, abstractly: families meeting family_acc whose reserved names do not clash *)
+Theorem C04_L5_document_roundtrip_acc :
+  forall (fix_nhkeys fix_nhsfx fix_tsmix fix_isnan fix_tsexp fix_sname : bool) (NUM : Type)
+         (parse_num parse_float : str -> option NUM) (parse_int : str -> option Z) (num_lt num_eqb : NUM -> NUM -> bool)
+         (num_isinf num_integral num_huge : NUM -> bool) (num_zero num_one num_inf : NUM)
+         (ts_float : Z -> Z -> option NUM) (is_word is_space_re is_digit_re : char -> bool)
+         (val_of : sample -> NUM) (ts_of : sample -> option (om_tsv NUM)) (ex_of : sample -> option (om_exemplar NUM))
+         (fams : list family) (text : str),
+    Forall (family_acc fix_nhkeys fix_nhsfx fix_tsmix fix_isnan fix_tsexp NUM parse_num parse_float parse_int num_lt num_eqb
+              num_isinf num_integral num_huge num_zero num_one num_inf ts_float is_word is_space_re is_digit_re
+              val_of ts_of ex_of) fams ->
+    ForallOrdPairs names_apart fams ->
+    om_render true fams = Ok text ->
+    om_parse false true fix_nhkeys fix_nhsfx fix_tsmix fix_isnan true true fix_tsexp fix_sname NUM parse_num parse_float
+      parse_int num_lt num_eqb num_isinf num_integral num_huge num_zero num_one num_inf ts_float is_word is_space_re
+      is_digit_re text
+    = Ok (map (gfam_of NUM val_of ts_of ex_of) fams).
+Proof. exact om_document_roundtrip. Qed.
+Print Assumptions C04_L5_document_roundtrip_acc.
+
+(* the grouping rule for samples WITHOUT timestamps, as a computable test (wgk key), and the shape that meets it: samples
+   listed group by group, one group key per group (key s = sorted(_group_for_sample(s).items())), pairwise different
+   series (name, labels) inside a group, different keys from group to group - what every instrumentation class produces *)
+Theorem C04_L5_grouping : forall (key : sample -> list (str * str)) groups,
+  Forall (grp_ok key) groups -> NoDup (map (grp_key key) groups) -> wgk key None [] [] (concat groups) = true.
+Proof. exact (fun key groups H1 H2 => wgk_groups key groups None [] [] I H1 H2 (fun _ _ H => H)). Qed.
+Print Assumptions C04_L5_grouping.
+
+(* L5, summary: one SUMMARY family - any non-empty name, help, optional unit; samples: n{quantile=q,...} with q read by
+   float() as a number in [0, 1] that is not spelt as a non-canonical infinity and a value that is not negative; n_count
+   integral, a number, not negative; n_sum a number, not negative; n_created; arbitrary other label names and values;
+   no timestamps, no exemplars (the parser takes none on a summary); grouping by wgk (skey n: the labels without
+   quantile) - followed by # EOF is parsed back to exactly that family. *)
+Theorem C04_L5_summary_family_roundtrip :
+  forall (fix_nhkeys fix_nhsfx fix_tsmix fix_isnan fix_tsexp fix_sname : bool) (NUM : Type)
+         (parse_num parse_float : str -> option NUM) (parse_int : str -> option Z) (num_lt num_eqb : NUM -> NUM -> bool)
+         (num_isinf num_integral num_huge : NUM -> bool) (num_zero num_one num_inf : NUM)
+         (ts_float : Z -> Z -> option NUM) (is_word is_space_re is_digit_re : char -> bool)
+         (val_of : sample -> NUM) (ts_of : sample -> option (om_tsv NUM)) (ex_of : sample -> option (om_exemplar NUM))
+         (n : str) (f : family) (text : str),
+    summary_family_ok fix_isnan fix_tsexp NUM parse_num parse_float parse_int num_lt num_eqb num_isinf num_integral num_huge
+      num_zero num_one num_inf val_of ts_of ex_of n f ->
+    om_render true [f] = Ok text ->
+    om_parse false true fix_nhkeys fix_nhsfx fix_tsmix fix_isnan true true fix_tsexp fix_sname NUM parse_num parse_float
+      parse_int num_lt num_eqb num_isinf num_integral num_huge num_zero num_one num_inf ts_float is_word is_space_re
+      is_digit_re text
+    = Ok [gfam_of NUM val_of ts_of ex_of f].
+Proof. exact om_summary_family_roundtrip. Qed.
+Print Assumptions C04_L5_summary_family_roundtrip.
+
+Example C04_L5_summary_family_ok_unfold :
+  forall fix_isnan fix_tsexp NUM parse_num parse_float parse_int num_lt num_eqb num_isinf num_integral num_huge
+         num_zero num_one num_inf val_of ts_of ex_of n f,
+    summary_family_ok fix_isnan fix_tsexp NUM parse_num parse_float parse_int num_lt num_eqb num_isinf num_integral num_huge
+      num_zero num_one num_inf val_of ts_of ex_of n f
+    <-> (f_name f = n /\ n <> [] /\ f_type f = Expo.S_summary /\
+         (f_unit f = [] \/ ends_with (USCORE :: f_unit f) n = true) /\
+         Forall (fun s =>
+           read_ok fix_tsexp NUM parse_num parse_float parse_int num_eqb num_isinf val_of ts_of ex_of s /\
+           s_ex s = None /\ s_ts_om s = None /\
+           ((s_name s = n /\ exists qv q, In (OM_quantile, qv) (s_labels s) /\ parse_float qv = Some q /\
+                              om_num_le NUM num_lt num_eqb num_zero q = true /\ om_num_le NUM num_lt num_eqb q num_one = true /\
+                              num_eqb q num_inf && negb (str_eqb qv OM_pInf) = false /\
+                              num_lt (val_of s) num_zero = false)
+            \/ (s_name s = n ++ OM_count /\ num_integral (val_of s) = true /\
+                counts_ok fix_isnan NUM num_lt num_eqb num_huge num_zero (val_of s))
+            \/ (s_name s = n ++ OM_sum /\ counts_ok fix_isnan NUM num_lt num_eqb num_huge num_zero (val_of s))
+            \/ s_name s = n ++ OM_created)) (f_samples f) /\
+         wgk (skey n) None [] [] (f_samples f) = true).
+Proof. intros. reflexivity. Qed.
+
+(* non-vacuity, with a NUMERIC toy oracle (a number is its value in thousandths, proofs/OMRoundTripWitness2.v): a summary
+   with a hostile name, help text, label names and values, quantile samples, two children *)
+Example C04_L5_summary_nonvacuous : forall fix_isnan fix_tsexp fix_sname,
+  (summary_family_ok fix_isnan fix_tsexp Z milli_num milli_num toy_int Z.ltb Z.eqb (fun z => (Z.abs z =? MILLI_INF)%Z)
+     (fun z => (z mod 1000 =? 0)%Z) (fun _ => false) 0%Z 1000%Z MILLI_INF milli_val toy_ts toy_ex hostile_name hostile_summary
+   /\ om_render true [hostile_summary] = Ok hostile_summary_text)
+  /\ toy_text2 fix_tsexp fix_sname hostile_summary_text = Ok [gfam_of Z milli_val toy_ts toy_ex hostile_summary].
+Proof. exact (fun a b c => conj (hostile_summary_hyps a b) (hostile_summary_reads b c)). Qed.
+
+(* L5, documents of mixed types: every family is well formed for its type (family_wf: one of the per-type hypotheses
+   - gauge_family_wf, counter_family_wf, summary_family_ok, and the types added in proofs/OMDocumentRoundTrip.v -
+   under the family's own name) and the names the families reserve do not clash (names_apart, table above); then the
+   exposition of the whole registry is parsed back to exactly those families, in order. *)
+Theorem C04_L5_document_roundtrip :
+  forall (fix_nhkeys fix_nhsfx fix_tsmix fix_isnan fix_tsexp fix_sname : bool) (NUM : Type)
+         (parse_num parse_float : str -> option NUM) (parse_int : str -> option Z) (num_lt num_eqb : NUM -> NUM -> bool)
+         (num_isinf num_integral num_huge : NUM -> bool) (num_zero num_one num_inf : NUM)
+         (ts_float : Z -> Z -> option NUM) (is_word is_space_re is_digit_re : char -> bool)
+         (val_of : sample -> NUM) (ts_of : sample -> option (om_tsv NUM)) (ex_of : sample -> option (om_exemplar NUM))
+         (fams : list family) (text : str),
+    Forall (family_wf fix_isnan fix_tsexp NUM parse_num parse_float parse_int num_lt num_eqb num_isinf num_integral num_huge
+              num_zero num_one num_inf val_of ts_of ex_of) fams ->
+    ForallOrdPairs names_apart fams ->
+    om_render true fams = Ok text ->
+    om_parse false true fix_nhkeys fix_nhsfx fix_tsmix fix_isnan true true fix_tsexp fix_sname NUM parse_num parse_float
+      parse_int num_lt num_eqb num_isinf num_integral num_huge num_zero num_one num_inf ts_float is_word is_space_re
+      is_digit_re text
+    = Ok (map (gfam_of NUM val_of ts_of ex_of) fams).
+Proof. exact om_mixed_document_roundtrip. Qed.
+Print Assumptions C04_L5_document_roundtrip.
+
+(* non-vacuity: a gauge (unit, nanosecond and integer timestamps), a counter (exemplar with hostile labels) and a summary
+   (quantiles), all with hostile names, help texts and labels, in one document *)
+Example C04_L5_document_nonvacuous : forall fix_isnan fix_tsexp fix_sname,
+  (Forall (family_wf fix_isnan fix_tsexp Z milli_num milli_num toy_int Z.ltb Z.eqb (fun z => (Z.abs z =? MILLI_INF)%Z)
+             (fun z => (z mod 1000 =? 0)%Z) (fun _ => false) 0%Z 1000%Z MILLI_INF milli_val toy_ts toy_ex) mixed_doc
+   /\ ForallOrdPairs names_apart mixed_doc
+   /\ om_render true mixed_doc = Ok mixed_text)
+  /\ toy_text2 fix_tsexp fix_sname mixed_text = Ok (map (gfam_of Z milli_val toy_ts toy_ex) mixed_doc).
+Proof. exact (fun a b c => conj (mixed_doc_hyps a b) (mixed_doc_reads b c)). Qed.
+
+(* L5, info: one INFO family - any non-empty name n, samples n_info with value 1 (num_eqb v 1), arbitrary label names and
+   values, label sets pairwise different (all samples of an info family form ONE group, so the series must differ), no
+   unit (the parser refuses one on info), no timestamps, no exemplars. *)
+Theorem C04_L5_info_family_roundtrip :
+  forall (fix_nhkeys fix_nhsfx fix_tsmix fix_isnan fix_tsexp fix_sname : bool) (NUM : Type)
+         (parse_num parse_float : str -> option NUM) (parse_int : str -> option Z) (num_lt num_eqb : NUM -> NUM -> bool)
+         (num_isinf num_integral num_huge : NUM -> bool) (num_zero num_one num_inf : NUM)
+         (ts_float : Z -> Z -> option NUM) (is_word is_space_re is_digit_re : char -> bool)
+         (val_of : sample -> NUM) (ts_of : sample -> option (om_tsv NUM)) (ex_of : sample -> option (om_exemplar NUM))
+         (n : str) (f : family) (text : str),
+    info_family_wf fix_tsexp NUM parse_num parse_float parse_int num_eqb num_isinf num_one val_of ts_of ex_of n f ->
+    om_render true [f] = Ok text ->
+    om_parse false true fix_nhkeys fix_nhsfx fix_tsmix fix_isnan true true fix_tsexp fix_sname NUM parse_num parse_float
+      parse_int num_lt num_eqb num_isinf num_integral num_huge num_zero num_one num_inf ts_float is_word is_space_re
+      is_digit_re text
+    = Ok [gfam_of NUM val_of ts_of ex_of f].
+Proof. exact om_info_family_roundtrip. Qed.
+Print Assumptions C04_L5_info_family_roundtrip.
+
+Example C04_L5_info_family_wf_unfold :
+  forall fix_tsexp NUM parse_num parse_float parse_int num_eqb num_isinf num_one val_of ts_of ex_of n f,
+    info_family_wf fix_tsexp NUM parse_num parse_float parse_int num_eqb num_isinf num_one val_of ts_of ex_of n f
+    <-> (f_name f = n /\ n <> [] /\ f_type f = Expo.S_infot /\ f_unit f = [] /\
+         Forall (fun s => read_ok fix_tsexp NUM parse_num parse_float parse_int num_eqb num_isinf val_of ts_of ex_of s /\
+                          s_ex s = None /\ s_ts_om s = None /\ s_name s = n ++ OM_infosfx /\
+                          num_eqb (val_of s) num_one = true) (f_samples f) /\
+         ForallOrdPairs (fun s1 s2 => ~ Permutation (s_labels s1) (s_labels s2)) (f_samples f)).
+Proof. intros. reflexivity. Qed.
+
+(* L5, stateset: one STATESET family - samples named n carrying the label n (the state; the family name is a label name
+   here, whatever characters it holds), value 0 or 1, grouped by the remaining labels (stkey; wgk as for summaries), no unit,
+   no timestamps, no exemplars. *)
+Theorem C04_L5_stateset_family_roundtrip :
+  forall (fix_nhkeys fix_nhsfx fix_tsmix fix_isnan fix_tsexp fix_sname : bool) (NUM : Type)
+         (parse_num parse_float : str -> option NUM) (parse_int : str -> option Z) (num_lt num_eqb : NUM -> NUM -> bool)
+         (num_isinf num_integral num_huge : NUM -> bool) (num_zero num_one num_inf : NUM)
+         (ts_float : Z -> Z -> option NUM) (is_word is_space_re is_digit_re : char -> bool)
+         (val_of : sample -> NUM) (ts_of : sample -> option (om_tsv NUM)) (ex_of : sample -> option (om_exemplar NUM))
+         (n : str) (f : family) (text : str),
+    stateset_family_wf fix_tsexp NUM parse_num parse_float parse_int num_eqb num_isinf num_zero num_one val_of ts_of ex_of n f ->
+    om_render true [f] = Ok text ->
+    om_parse false true fix_nhkeys fix_nhsfx fix_tsmix fix_isnan true true fix_tsexp fix_sname NUM parse_num parse_float
+      parse_int num_lt num_eqb num_isinf num_integral num_huge num_zero num_one num_inf ts_float is_word is_space_re
+      is_digit_re text
+    = Ok [gfam_of NUM val_of ts_of ex_of f].
+Proof. exact om_stateset_family_roundtrip. Qed.
+Print Assumptions C04_L5_stateset_family_roundtrip.
+
+Example C04_L5_stateset_family_wf_unfold :
+  forall fix_tsexp NUM parse_num parse_float parse_int num_eqb num_isinf num_zero num_one val_of ts_of ex_of n f,
+    stateset_family_wf fix_tsexp NUM parse_num parse_float parse_int num_eqb num_isinf num_zero num_one val_of ts_of ex_of n f
+    <-> (f_name f = n /\ n <> [] /\ f_type f = Expo.S_stateset /\ f_unit f = [] /\
+         Forall (fun s => read_ok fix_tsexp NUM parse_num parse_float parse_int num_eqb num_isinf val_of ts_of ex_of s /\
+                          s_ex s = None /\ s_ts_om s = None /\ s_name s = n /\ (exists st, In (n, st) (s_labels s)) /\
+                          num_eqb (val_of s) num_zero || num_eqb (val_of s) num_one = true) (f_samples f) /\
+         wgk (stkey n) None [] [] (f_samples f) = true).
+Proof. intros. reflexivity. Qed.
+
+(* non-vacuity: an info family and a stateset family (its name, a hostile string, is the state label's name) in one document *)
+Example C04_L5_info_stateset_nonvacuous : forall fix_isnan fix_tsexp fix_sname,
+  (Forall (family_wf fix_isnan fix_tsexp Z milli_num milli_num toy_int Z.ltb Z.eqb (fun z => (Z.abs z =? MILLI_INF)%Z)
+             (fun z => (z mod 1000 =? 0)%Z) (fun _ => false) 0%Z 1000%Z MILLI_INF milli_val toy_ts toy_ex) info_state_doc
+   /\ ForallOrdPairs names_apart info_state_doc
+   /\ om_render true info_state_doc = Ok info_state_text)
+  /\ toy_text2 fix_tsexp fix_sname info_state_text = Ok (map (gfam_of Z milli_val toy_ts toy_ex) info_state_doc).
+Proof. exact (fun a b c => conj (info_state_hyps a b) (info_state_reads b c)). Qed.
+
+(* L5, histogram.  Inside a histogram family the line loop first asks _parse_nh_sample whether the line is a native
+   histogram sample; a sample line written by the exposition never is (no unquoted opening brace after the label block,
+   or the first one follows the hash of an exemplar), whatever its name, labels and exemplar labels hold. *)
+Theorem C04_L5_sample_line_not_native :
+  forall (fix_nhkeys fix_nhsfx fix_tsexp : bool) (NUM : Type) (parse_num parse_float : str -> option NUM)
+         (parse_int : str -> option Z) (num_eqb : NUM -> NUM -> bool) (num_isinf : NUM -> bool)
+         (is_word is_space_re is_digit_re : char -> bool) s tsv,
+    om_token_ok (go_string (s_value s)) ->
+    ts_reads fix_tsexp NUM parse_float parse_int num_eqb num_isinf (s_ts_om s) tsv ->
+    om_parse_nh_sample false true fix_nhkeys fix_nhsfx NUM parse_float parse_int is_word is_space_re is_digit_re (om_body s)
+    = Ok None.
+Proof. exact sample_line_not_native. Qed.
+Print Assumptions C04_L5_sample_line_not_native.
+
+(* _check_histogram accepts samples listed group by group when every group (hgroup_ok) is: buckets n_bucket{le=..} with
+   bounds float() reads, strictly increasing (the parser refuses b <= previous: bchain), values not decreasing from 0,
+   the last bound equal to +Inf; then optionally n_count and n_sum, the count equal to the last bucket value and - a sum
+   being present - no negative bound (negf); then optionally n_created; one group key (hkey: the labels without le) per
+   group, different keys from group to group. *)
+Theorem C04_L5_check_histogram :
+  forall (fix_isnan fix_tsexp : bool) (NUM : Type) (parse_num parse_float : str -> option NUM) (parse_int : str -> option Z)
+         (num_lt num_eqb : NUM -> NUM -> bool) (num_isinf num_integral num_huge : NUM -> bool) (num_zero num_inf : NUM)
+         (val_of : sample -> NUM) (ts_of : sample -> option (om_tsv NUM)) (ex_of : sample -> option (om_exemplar NUM))
+         (n : str) groups,
+    Forall (hgroup_ok fix_isnan fix_tsexp NUM parse_num parse_float parse_int num_lt num_eqb num_isinf num_integral num_huge
+              num_zero num_inf val_of ts_of ex_of n) groups ->
+    NoDup (map (hgroup_key n) groups) ->
+    om_check_histogram NUM parse_float num_lt num_eqb num_zero num_inf (map (g_ps_of NUM val_of ts_of ex_of) (concat groups)) n
+    = Ok tt.
+Proof. exact check_hist_groups. Qed.
+Print Assumptions C04_L5_check_histogram.
+
+(* one classic HISTOGRAM family - any non-empty name, help, optional unit; samples listed group by group as above, every
+   sample with arbitrary label names and values; bucket values integral, numbers, not negative, le not spelt NaN nor as a
+   non-canonical infinity; n_count integral; n_count, n_sum numbers, not negative; EXEMPLARS on buckets (ex_reads, as in L4);
+   no timestamps; the series of one group pairwise different - followed by # EOF is parsed back to exactly that family:
+   through the per-sample checks, the grouping and _check_histogram at the flush. *)
+Theorem C04_L5_histogram_family_roundtrip :
+  forall (fix_nhkeys fix_nhsfx fix_tsmix fix_isnan fix_tsexp fix_sname : bool) (NUM : Type)
+         (parse_num parse_float : str -> option NUM) (parse_int : str -> option Z) (num_lt num_eqb : NUM -> NUM -> bool)
+         (num_isinf num_integral num_huge : NUM -> bool) (num_zero num_one num_inf : NUM)
+         (ts_float : Z -> Z -> option NUM) (is_word is_space_re is_digit_re : char -> bool)
+         (val_of : sample -> NUM) (ts_of : sample -> option (om_tsv NUM)) (ex_of : sample -> option (om_exemplar NUM))
+         (n : str) (f : family) (text : str),
+    histogram_family_wf fix_isnan fix_tsexp NUM parse_num parse_float parse_int num_lt num_eqb num_isinf num_integral num_huge
+      num_zero num_inf val_of ts_of ex_of n f ->
+    om_render true [f] = Ok text ->
+    om_parse false true fix_nhkeys fix_nhsfx fix_tsmix fix_isnan true true fix_tsexp fix_sname NUM parse_num parse_float
+      parse_int num_lt num_eqb num_isinf num_integral num_huge num_zero num_one num_inf ts_float is_word is_space_re
+      is_digit_re text
+    = Ok [gfam_of NUM val_of ts_of ex_of f].
+Proof. exact om_histogram_family_roundtrip. Qed.
+Print Assumptions C04_L5_histogram_family_roundtrip.
+
+Example C04_L5_histogram_family_wf_unfold :
+  forall fix_isnan fix_tsexp NUM parse_num parse_float parse_int num_lt num_eqb num_isinf num_integral num_huge
+         num_zero num_inf val_of ts_of ex_of n f,
+    let hs_ok := om_hsample_ok fix_isnan fix_tsexp NUM parse_num parse_float parse_int num_lt num_eqb num_isinf num_integral
+                   num_huge num_zero num_inf val_of ts_of ex_of n in
+    let bnd := bound_of NUM parse_float in
+    (histogram_family_wf fix_isnan fix_tsexp NUM parse_num parse_float parse_int num_lt num_eqb num_isinf num_integral num_huge
+       num_zero num_inf val_of ts_of ex_of n f
+     <-> (f_name f = n /\ n <> [] /\ f_type f = Expo.S_histogram /\
+          (f_unit f = [] \/ ends_with (USCORE :: f_unit f) n = true) /\
+          exists groups, f_samples f = concat groups /\
+            Forall (fun grp => exists k bks cs cr, grp = bks ++ cs ++ cr /\
+                      Forall (fun s => hs_ok s /\ hkey n s = k) grp /\
+                      bks <> [] /\ Forall (fun s => s_name s = n ++ OM_bucket) bks /\
+                      bchain NUM parse_float num_lt num_eqb val_of None num_zero bks /\
+                      (exists b, lastb NUM parse_float None bks = Some b /\ num_eqb b num_inf = true) /\
+                      (cs = [] \/ exists c sm, cs = [c; sm] /\ s_name c = n ++ OM_count /\ s_name sm = n ++ OM_sum /\
+                                               num_eqb (lastv NUM val_of num_zero bks) (val_of c) = true /\
+                                               negf NUM parse_float num_lt num_zero false bks = false) /\
+                      (cr = [] \/ exists r, cr = [r] /\ s_name r = n ++ OM_created)) groups /\
+            NoDup (map (hgroup_key n) groups) /\ Forall (fun grp => NoDup (map sid_of grp)) groups))
+    /\ (forall s, hs_ok s <->
+          (read_ok fix_tsexp NUM parse_num parse_float parse_int num_eqb num_isinf val_of ts_of ex_of s /\ s_ts_om s = None /\
+           ((s_name s = n ++ OM_bucket /\
+             (exists lv b, In (OM_le, lv) (s_labels s) /\ parse_float lv = Some b /\ str_eqb lv OM_NaN = false /\
+                           num_eqb b num_inf && negb (str_eqb lv OM_pInf) = false) /\
+             num_integral (val_of s) = true /\ counts_ok fix_isnan NUM num_lt num_eqb num_huge num_zero (val_of s))
+            \/ (s_name s = n ++ OM_count /\ s_ex s = None /\ num_integral (val_of s) = true /\
+                counts_ok fix_isnan NUM num_lt num_eqb num_huge num_zero (val_of s))
+            \/ (s_name s = n ++ OM_sum /\ s_ex s = None /\ counts_ok fix_isnan NUM num_lt num_eqb num_huge num_zero (val_of s))
+            \/ (s_name s = n ++ OM_created /\ s_ex s = None)))).
+Proof. intros. split; [|intro s]; reflexivity. Qed.
+
+(* non-vacuity: a histogram with a hostile name, help, labels; buckets 0.5 / 2.5 / +Inf with two exemplars (one with hostile
+   labels and a nanosecond timestamp, one with the empty label set), _count, _sum, _created; a second child with the +Inf
+   bucket only *)
+Example C04_L5_histogram_nonvacuous : forall fix_isnan fix_tsexp fix_sname,
+  (histogram_family_wf fix_isnan fix_tsexp Z milli_num milli_num toy_int Z.ltb Z.eqb (fun z => (Z.abs z =? MILLI_INF)%Z)
+     (fun z => (z mod 1000 =? 0)%Z) (fun _ => false) 0%Z MILLI_INF milli_val toy_ts toy_ex hname hostile_histogram
+   /\ om_render true [hostile_histogram] = Ok hostile_histogram_text)
+  /\ toy_text2 fix_tsexp fix_sname hostile_histogram_text = Ok [gfam_of Z milli_val toy_ts toy_ex hostile_histogram].
+Proof. exact (fun a b c => conj (hostile_histogram_hyps a b) (hostile_histogram_reads b c)). Qed.
+
+(* non-vacuity of C04_L5_document_roundtrip with ALL supported types in one document: gauge, counter, summary, info,
+   stateset, histogram - hostile names, help texts, labels, exemplars *)
+Example C04_L5_document_all_types_nonvacuous : forall fix_isnan fix_tsexp fix_sname,
+  (Forall (family_wf fix_isnan fix_tsexp Z milli_num milli_num toy_int Z.ltb Z.eqb (fun z => (Z.abs z =? MILLI_INF)%Z)
+             (fun z => (z mod 1000 =? 0)%Z) (fun _ => false) 0%Z 1000%Z MILLI_INF milli_val toy_ts toy_ex) all_doc
+   /\ ForallOrdPairs names_apart all_doc
+   /\ om_render true all_doc = Ok all_text)
+  /\ toy_text2 fix_tsexp fix_sname all_text = Ok (map (gfam_of Z milli_val toy_ts toy_ex) all_doc).
+Proof. exact (fun a b c => conj (all_doc_hyps a b) (all_doc_reads b c)). Qed.
+
+(* what family_wf is: the disjunction of the per-type hypotheses, under the family's own name *)
+Example C04_L5_family_wf_unfold :
+  forall fix_isnan fix_tsexp NUM parse_num parse_float parse_int num_lt num_eqb num_isinf num_integral num_huge
+         num_zero num_one num_inf val_of ts_of ex_of f,
+    family_wf fix_isnan fix_tsexp NUM parse_num parse_float parse_int num_lt num_eqb num_isinf num_integral num_huge
+      num_zero num_one num_inf val_of ts_of ex_of f
+    <-> (gauge_family_wf fix_tsexp NUM parse_num parse_float parse_int num_eqb num_isinf val_of ts_of ex_of (f_name f) f
+         \/ counter_family_wf fix_isnan fix_tsexp NUM parse_num parse_float parse_int num_lt num_eqb num_isinf num_huge num_zero
+              val_of ts_of ex_of (f_name f) f
+         \/ summary_family_ok fix_isnan fix_tsexp NUM parse_num parse_float parse_int num_lt num_eqb num_isinf num_integral
+              num_huge num_zero num_one num_inf val_of ts_of ex_of (f_name f) f
+         \/ info_family_wf fix_tsexp NUM parse_num parse_float parse_int num_eqb num_isinf num_one val_of ts_of ex_of (f_name f) f
+         \/ stateset_family_wf fix_tsexp NUM parse_num parse_float parse_int num_eqb num_isinf num_zero num_one val_of ts_of ex_of
+              (f_name f) f
+         \/ histogram_family_wf fix_isnan fix_tsexp NUM parse_num parse_float parse_int num_lt num_eqb num_isinf num_integral
+              num_huge num_zero num_inf val_of ts_of ex_of (f_name f) f).
+Proof. intros. reflexivity. Qed.
+
+(* gauge and counter families in the general form used by family_wf (timestamps allowed on gauges, exemplars on _total) *)
+Example C04_L5_gauge_counter_wf_unfold :
+  forall fix_isnan fix_tsexp NUM parse_num parse_float parse_int num_lt num_eqb num_isinf num_huge num_zero val_of ts_of ex_of n f,
+    let rd := read_ok fix_tsexp NUM parse_num parse_float parse_int num_eqb num_isinf val_of ts_of ex_of in
+    (gauge_family_wf fix_tsexp NUM parse_num parse_float parse_int num_eqb num_isinf val_of ts_of ex_of n f
+     <-> (f_name f = n /\ n <> [] /\ f_type f = Expo.S_gauge /\ (f_unit f = [] \/ ends_with (USCORE :: f_unit f) n = true) /\
+          Forall (fun s => rd s /\ s_ex s = None /\ s_name s = n) (f_samples f) /\
+          ForallOrdPairs (fun s1 s2 => ~ Permutation (s_labels s1) (s_labels s2)) (f_samples f)))
+    /\ (counter_family_wf fix_isnan fix_tsexp NUM parse_num parse_float parse_int num_lt num_eqb num_isinf num_huge num_zero
+          val_of ts_of ex_of n f
+        <-> (f_name f = n /\ n <> [] /\ f_type f = Expo.S_counter /\ (f_unit f = [] \/ ends_with (USCORE :: f_unit f) n = true) /\
+             Forall (fun s => rd s /\ s_ts_om s = None /\
+                              ((s_name s = n ++ OM_total /\ counts_ok fix_isnan NUM num_lt num_eqb num_huge num_zero (val_of s))
+                               \/ (s_name s = n ++ OM_created /\ s_ex s = None))) (f_samples f) /\
+             wgk lkey None [] [] (f_samples f) = true)).
+Proof. intros. split; reflexivity. Qed.
